@@ -134,7 +134,8 @@ class LockstepReader:
 
     @chunked_reading_mode.setter
     def chunked_reading_mode(self, v):
-        self._tick("set_mode", (v,), can_fail=False)  # a failing mode switch could not be restored by anyone
+        # not counted as fuel / fault point: a failing mode switch could not be restored by anyone,
+        # and the reference does not count mode switches as reader operations either
         self._r.chunked_reading_mode = v
         self._m.chunked_reading_mode = v
         if len(self.trace) < 400:
